@@ -10,11 +10,48 @@ def coeff_bounds(L, radius):
     return [int(np.floor(radius * np.linalg.norm(Linv[:, i]) + 1e-9)) + 1 for i in range(3)]
 
 
-def lattice_points_within(L, radius, centre=None):
+class TooExpensive(Exception):
+    pass
+
+
+def greedy_reduce(L, sweeps=60):
+    """Unimodular size reduction (cost only: the enumeration window below is proven for ANY basis).
+    Returns (R, U) with R = U @ L, U integer unimodular."""
+    R = np.array(L, dtype=float)
+    U = np.eye(3, dtype=np.int64)
+    for _ in range(sweeps):
+        changed = False
+        for i in range(3):
+            for j in range(3):
+                if i == j:
+                    continue
+                k = int(np.rint(np.dot(R[i], R[j]) / np.dot(R[j], R[j])))
+                if k:
+                    R[i] -= k * R[j]
+                    U[i] -= k * U[j]
+                    changed = True
+        # also try triple combinations
+        for signs in ((1, 1), (1, -1), (-1, 1), (-1, -1)):
+            for i in range(3):
+                j, k = [x for x in range(3) if x != i]
+                cand = R[i] + signs[0] * R[j] + signs[1] * R[k]
+                if np.dot(cand, cand) < np.dot(R[i], R[i]) * (1 - 1e-12):
+                    R[i] = cand
+                    U[i] = U[i] + signs[0] * U[j] + signs[1] * U[k]
+                    changed = True
+        if not changed:
+            break
+    return R, U
+
+
+def lattice_points_within(L, radius, centre=None, max_points=4_000_000):
     """All integer n with |(n + centre) @ L| <= radius (centre fractional, default 0)."""
     if centre is None:
         centre = np.zeros(3)
     centre = np.asarray(centre, dtype=float)
+    bb = coeff_bounds(L, radius)
+    if (2 * bb[0] + 4) * (2 * bb[1] + 4) * (2 * bb[2] + 4) > max_points:
+        raise TooExpensive()
     # |n+c| coefficient bound
     b = coeff_bounds(L, radius)
     c0 = np.rint(centre).astype(int)
@@ -28,7 +65,7 @@ def lattice_points_within(L, radius, centre=None):
 
 def shortest_lattice_vector(L):
     """Length of the shortest non-zero lattice vector of L (rows)."""
-    L = np.asarray(L, dtype=float)
+    L, _ = greedy_reduce(np.asarray(L, dtype=float))
     r0 = min(np.linalg.norm(L[i]) for i in range(3))
     g, v, r = lattice_points_within(L, r0 * (1 + 1e-12))
     r = r[np.any(g != 0, axis=1)]
@@ -41,8 +78,11 @@ def min_images(d_frac, L, tol):
     Returns (m, near) with m the true minimum length and near the list of
     (cartesian vector, length) of all images with length < m + 4*tol.
     """
-    d = np.asarray(d_frac, dtype=float)
+    # work in a size-reduced basis of the SAME lattice: R = U @ L, fractional coords transform with U^-1
+    R, U = greedy_reduce(L)
+    d = np.asarray(d_frac, dtype=float) @ np.linalg.inv(U.astype(float))
     d = d - np.rint(d)
+    L = R
     # upper bound on the minimum: length of reduced d itself in a few images
     cand = [np.linalg.norm((d + np.array(s)) @ L) for s in itertools.product((-1, 0, 1), repeat=3)]
     r0 = min(cand)
